@@ -128,3 +128,107 @@ def gen_static_tx(rng, atoms, depth, heads=("U", "I", "X", "S", "H", "CC")):
     if h == "CC":
         return ["CC", rng.choice(sorted(T.CLASS_PREDS))]
     return rng.choice(atoms)
+
+
+# --------------------------------------------------------------------------- programs
+VALUE_POOL = [["v", 0], ["v", 1], ["v", 2], ["v", 3], ["v", 4], ["v", -1], ["mi", 1], ["mi", 2], ["mi", 4],
+              ["v", "a"], ["v", "ab"], ["v", "b"], ["v", True], ["v", False], ["v", None], ["v", 2.5]]
+
+
+def values_for(hier, builtin=True):
+    vals = [["i", s["name"]] for s in hier] + [["i", "object"]]
+    return vals + (VALUE_POOL if builtin else [])
+
+
+def gen_dep_tx(rng, pool):
+    """a value-dependent annotation: Literal or Dependent over a class bound"""
+    r = rng.random()
+    if r < 0.4:
+        k = rng.choice([1, 1, 2, 3])
+        vals = rng.sample([0, 1, 2, 3, 4], k)
+        return ["L", *vals]
+    if r < 0.5:
+        return ["L", *rng.sample(["a", "ab", "b"], rng.choice([1, 2]))]
+    bound = rng.choice(["int", "int", "object", "MyInt", "str", rng.choice(pool)])
+    preds = {"int": ["ge3", "lt3", "even", "odd", "pos"], "MyInt": ["even", "ge3", "odd"],
+             "object": ["truthy", "falsy", "ge3", "even"], "str": ["startsA", "short", "truthy"]}
+    pred = rng.choice(preds.get(bound, ["always", "never", "truthy"]))
+    return ["D", bound, pred]
+
+
+def gen_program(rng, *, npos=None, nmeth=(2, 7), dep=0.0, kinds=("leaf",), kw=0.0, hier=None,
+                prio=(0, 0, 0, 1, -1), repeat=0.15, other_arity=0.1, extras=("MyInt", "int"), catchall=0.4):
+    hier = hier if hier is not None else gen_hierarchy(rng, rng.randint(2, 5), attrs=False)
+    pool = [s["name"] for s in hier] + ["object"] + list(extras)
+    npos = npos or rng.choice([1, 1, 2, 2, 3])
+    methods = []
+    for i in range(rng.randint(*nmeth)):
+        if methods and rng.random() < repeat:
+            m = dict(rng.choice(methods), mid=i)
+            m["kind"] = rng.choice(kinds)
+        else:
+            n = npos
+            if rng.random() < other_arity:
+                n = max(1, npos + rng.choice([-1, 1]))
+            pos = []
+            for j in range(n):
+                t = gen_dep_tx(rng, pool) if rng.random() < dep else rng.choice(pool)
+                pos.append({"n": f"a{j}", "t": t})
+            kws = []
+            if rng.random() < kw:
+                for k in rng.sample(["k1", "k2"], rng.choice([1, 1, 2])):
+                    kws.append({"n": k, "t": rng.choice(pool), "req": rng.random() < 0.6})
+                kws.sort(key=lambda k: k["n"])
+            m = {"mid": i, "pos": pos, "kw": kws, "prio": rng.choice(prio), "kind": rng.choice(kinds)}
+        if m["kind"] == "fnext" and (m.get("kw") or len(m["pos"]) != npos):
+            m["kind"] = "next"
+        methods.append(m)
+    if rng.random() < catchall:
+        methods.append({"mid": len(methods), "pos": [{"n": f"a{j}", "t": "object"} for j in range(npos)], "kw": [],
+                        "prio": rng.choice([0, 0, -1]), "kind": "leaf"})
+    return {"hier": hier, "methods": methods, "npos": npos}
+
+
+class CallGen:
+    """Call generator for one program spec: most calls are aimed at one method's parameter types
+    so that they are applicable to something."""
+
+    def __init__(self, spec, values=None):
+        self.spec = spec
+        self.values = values or values_for(spec["hier"])
+        self.env = T.Env(spec["hier"])
+        self.cache = {}
+        self.arities = sorted({len(m["pos"]) for m in spec["methods"]})
+        self.used_kw = sorted({k["n"] for m in spec["methods"] for k in m.get("kw", [])})
+
+    def accepting(self, t):
+        key = T.tname(t) if t is not None else "object"
+        if key not in self.cache:
+            self.cache[key] = [v for v in self.values
+                               if t is None or T.accepts(t, self.env, T.value(v, self.env)) is True]
+        return self.cache[key]
+
+    def args(self, rng, n, p_guided=0.75):
+        ms = [m for m in self.spec["methods"] if len(m["pos"]) >= n]
+        if ms and rng.random() < p_guided:
+            m = rng.choice(ms)
+            out = []
+            for j in range(n):
+                acc = self.accepting(m["pos"][j].get("t"))
+                out.append(rng.choice(acc) if acc and rng.random() < 0.9 else rng.choice(self.values))
+            return out
+        return [rng.choice(self.values) for _ in range(n)]
+
+    def call(self, rng, p_kw=0.3):
+        spec = self.spec
+        n = spec["npos"] if rng.random() < 0.85 else rng.choice(self.arities)
+        call = {"pos": self.args(rng, n), "kw": {},
+                "alt": self.args(rng, max(self.arities + [spec["npos"]]))}
+        if self.used_kw and rng.random() < p_kw:
+            for k in rng.sample(self.used_kw, rng.randint(1, len(self.used_kw))):
+                call["kw"][k] = rng.choice(self.values)
+        return call
+
+
+def gen_call(rng, spec, values=None, p_kw=0.3):
+    return CallGen(spec, values).call(rng, p_kw)
